@@ -182,9 +182,10 @@ class Run:
         if self.harness_errors:
             for e in self.harness_errors[:10]:
                 print('HARNESS-ERROR %s %s' % (self.pid, e))
-            return EXIT_HARNESS
         if self.violations:
-            return EXIT_VIOLATION
+            return EXIT_VIOLATION        # a replayed violation stands, whatever else could not be decided
+        if self.harness_errors:
+            return EXIT_HARNESS
         if self.obligations and len(self.inconclusive) * 10 > self.obligations:
             print('HARNESS-ERROR %s more than 10%% of the obligations inconclusive' % self.pid)
             return EXIT_HARNESS
